@@ -218,10 +218,18 @@ type handleSpec struct {
 	dynMode  string                   // "", "reject", "permit", "nil"
 	dyn      map[string]sqlgen.Filter // per table
 	dynFirst bool                     // apply WithDynamicLimit before WithShardLimit
+	// explain: the handle also has WithPanicOnNoIndex (an EXPLAIN precedes every
+	// non-batched SELECT that does not allow full scans); explainFirst applies
+	// it before the limits
+	explain      bool
+	explainFirst bool
 }
 
 func (h *handleSpec) describe() string {
 	s := "shard=" + showFilter(h.shard) + " dynamic=" + h.dynMode
+	if h.explain {
+		s = "WithPanicOnNoIndex " + s
+	}
 	if h.dynMode == "reject" || h.dynMode == "permit" {
 		var parts []string
 		for _, t := range tableNames {
@@ -302,12 +310,30 @@ func (h *handleSpec) build(base *sqlgen.DB, obs *dynObs, callTable func(ctx cont
 		}
 		db, err = db.WithDynamicLimit(dl)
 	}
+	applyExplain := func() {
+		if !h.explain || err != nil {
+			return
+		}
+		if db == base {
+			// WithPanicOnNoIndex switches the option on in place: keep the
+			// scenario's base handle untouched
+			c := *base
+			db = &c
+		}
+		db, err = db.WithPanicOnNoIndex()
+	}
+	if h.explainFirst {
+		applyExplain()
+	}
 	if h.dynFirst {
 		applyDyn()
 		applyShard()
 	} else {
 		applyShard()
 		applyDyn()
+	}
+	if !h.explainFirst {
+		applyExplain()
 	}
 	return db, err
 }
@@ -475,6 +501,7 @@ type scenario struct {
 	nextID  int
 	nextRow int64
 	txTags  map[string]bool
+	dom     *domain
 	// nGenerated handles come first in handles/specs; one extra unrestricted
 	// handle (the base DB) follows, used by the options-reuse blocks
 	nGenerated int
@@ -492,8 +519,59 @@ func (s *scenario) newCall(op, ctxKind, table string, handle int) *call {
 	return c
 }
 
-var orgVals = []int64{1, 2, 3}
-var regionVals = []string{"us", "eu"}
+// domain is the value pool of one scenario for the shard columns. Besides the
+// plain one there are pools at representational boundaries: 64-bit ids above
+// 2^53 that differ only in bits a float64 cannot hold, the extremes of int64,
+// zero and negative ids, strings that differ only in case, in a trailing space
+// or in a single (non-ASCII) rune of a long value. Foreign values are always
+// the neighbour of the limit value in the pool.
+type domain struct {
+	name    string
+	orgs    []int64
+	regions []string
+}
+
+const longRegion = "région-zürich-ñandú-北京-0123456789-abcdefghijklmnopqrstuvwxyz-"
+
+var orgPools = [][]int64{
+	{1, 2, 3},
+	{1, 2, 3},
+	{1<<53 + 1, 1 << 53, 1<<53 + 2},
+	{9223372036854775807, 9223372036854775806, -9223372036854775808},
+	{0, -1, 1},
+	{-(1<<53 + 1), -(1 << 53), 4611686018427387905},
+}
+var regionPools = [][]string{
+	{"us", "eu"},
+	{"us", "eu"},
+	{"us", "US", "us "},
+	{longRegion + "é", longRegion + "e", longRegion + "è"},
+	{"", " ", "us"},
+}
+
+func genDomain(r *rand.Rand) *domain {
+	oi, ri := r.Intn(len(orgPools)), r.Intn(len(regionPools))
+	return &domain{name: fmt.Sprintf("orgs#%d/regions#%d", oi, ri), orgs: orgPools[oi], regions: regionPools[ri]}
+}
+
+// otherOrg / otherRegion return the pool neighbour of v (a different value).
+func (d *domain) otherOrg(v int64) int64 {
+	for i, o := range d.orgs {
+		if o == v {
+			return d.orgs[(i+1)%len(d.orgs)]
+		}
+	}
+	return d.orgs[0]
+}
+
+func (d *domain) otherRegion(v string) string {
+	for i, o := range d.regions {
+		if o == v {
+			return d.regions[(i+1)%len(d.regions)]
+		}
+	}
+	return d.regions[0]
+}
 
 func orgAs(r *rand.Rand, v int64, variant int) interface{} {
 	switch variant % 6 {
@@ -502,13 +580,22 @@ func orgAs(r *rand.Rand, v int64, variant int) interface{} {
 	case 1:
 		return int(v)
 	case 2:
-		return int32(v)
+		if v == int64(int32(v)) {
+			return int32(v)
+		}
+		return OrgID(v)
 	case 3:
 		return OrgID(v)
 	case 4:
 		return &v
 	default:
-		return uint16(v)
+		if v >= 0 && v <= 65535 {
+			return uint16(v)
+		}
+		if v >= 0 {
+			return uint64(v)
+		}
+		return int(v)
 	}
 }
 
@@ -526,13 +613,16 @@ func regionAs(r *rand.Rand, v string, variant int) interface{} {
 }
 
 // limitValue picks a limit value (comparable scalar: ints, strings, named types).
-func limitValue(r *rand.Rand, col string) interface{} {
+func limitValue(r *rand.Rand, dom *domain, col string) interface{} {
 	if col == "org_id" {
-		v := orgVals[r.Intn(2)]
+		v := dom.orgs[r.Intn(2)]
 		switch r.Intn(8) {
 		case 0:
 			return int(v)
 		case 1:
+			if v != int64(int32(v)) {
+				return v
+			}
 			return int32(v)
 		case 2:
 			return OrgID(v)
@@ -540,33 +630,33 @@ func limitValue(r *rand.Rand, col string) interface{} {
 			return v
 		}
 	}
-	v := regionVals[r.Intn(2)]
+	v := dom.regions[r.Intn(2)]
 	if r.Intn(4) == 0 {
 		return Region(v)
 	}
 	return v
 }
 
-func genLimitFilter(r *rand.Rand) sqlgen.Filter {
+func genLimitFilter(r *rand.Rand, dom *domain) sqlgen.Filter {
 	f := sqlgen.Filter{}
 	switch r.Intn(5) {
 	case 0:
-		f["region"] = limitValue(r, "region")
+		f["region"] = limitValue(r, dom, "region")
 	case 1:
-		f["org_id"] = limitValue(r, "org_id")
-		f["region"] = limitValue(r, "region")
+		f["org_id"] = limitValue(r, dom, "org_id")
+		f["region"] = limitValue(r, dom, "region")
 	default:
-		f["org_id"] = limitValue(r, "org_id")
+		f["org_id"] = limitValue(r, dom, "org_id")
 	}
 	return f
 }
 
-func genHandleSpec(r *rand.Rand) *handleSpec {
-	h := &handleSpec{dynFirst: r.Intn(2) == 0}
+func genHandleSpec(r *rand.Rand, dom *domain) *handleSpec {
+	h := &handleSpec{dynFirst: r.Intn(2) == 0, explain: r.Intn(3) == 0, explainFirst: r.Intn(2) == 0}
 	mode := r.Intn(12)
 	switch {
 	case mode < 4: // shard only
-		h.shard = genLimitFilter(r)
+		h.shard = genLimitFilter(r, dom)
 	case mode < 6: // dynamic reject only
 		h.dynMode = "reject"
 	case mode < 7:
@@ -574,22 +664,22 @@ func genHandleSpec(r *rand.Rand) *handleSpec {
 	case mode < 8:
 		h.dynMode = "nil"
 	case mode < 10: // both
-		h.shard = genLimitFilter(r)
+		h.shard = genLimitFilter(r, dom)
 		h.dynMode = "reject"
 	case mode < 11:
-		h.shard = genLimitFilter(r)
+		h.shard = genLimitFilter(r, dom)
 		h.dynMode = "permit"
 	default:
-		h.shard = genLimitFilter(r)
+		h.shard = genLimitFilter(r, dom)
 		h.dynMode = "nil"
 	}
 	if h.dynMode != "" {
 		h.dyn = map[string]sqlgen.Filter{}
-		common := genLimitFilter(r)
+		common := genLimitFilter(r, dom)
 		perTable := r.Intn(2) == 0
 		for _, t := range tableNames {
 			if perTable {
-				h.dyn[t] = genLimitFilter(r)
+				h.dyn[t] = genLimitFilter(r, dom)
 			} else {
 				h.dyn[t] = common
 			}
@@ -614,8 +704,8 @@ func (s *scenario) seed() error {
 	var evs []*Event
 	var mems []*Member
 	id := int64(1)
-	for _, o := range orgVals {
-		for _, rg := range regionVals {
+	for _, o := range s.dom.orgs {
+		for _, rg := range s.dom.regions {
 			for k := 0; k < 2; k++ {
 				var score *int64
 				if k == 0 {
@@ -669,10 +759,10 @@ func (s *scenario) genFilter(table string, limits []pair, intent string) sqlgen.
 	}
 	// sometimes a non-limit shard-like column as well
 	if r.Intn(4) == 0 {
-		f["region"] = regionAs(r, regionVals[r.Intn(2)], 0)
+		f["region"] = regionAs(r, s.dom.regions[r.Intn(len(s.dom.regions))], 0)
 	}
 	if r.Intn(6) == 0 {
-		f["org_id"] = orgVals[r.Intn(3)]
+		f["org_id"] = s.dom.orgs[r.Intn(len(s.dom.orgs))]
 	}
 	if len(limits) == 0 {
 		return f
@@ -684,12 +774,9 @@ func (s *scenario) genFilter(table string, limits []pair, intent string) sqlgen.
 	other := func() interface{} {
 		d := norm(bad.val)
 		if d.kind == 'i' {
-			return orgAs(r, d.i%3+1, r.Intn(6))
+			return orgAs(r, s.dom.otherOrg(d.i), r.Intn(6))
 		}
-		if d.s == "us" {
-			return regionAs(r, "eu", r.Intn(4))
-		}
-		return regionAs(r, "us", r.Intn(4))
+		return regionAs(r, s.dom.otherRegion(d.s), r.Intn(4))
 	}
 	switch intent {
 	case "identical":
@@ -746,7 +833,7 @@ func (s *scenario) genOptions(table string, ctxKind string) (*sqlgen.SelectOptio
 	case 3:
 		// user WHERE that names a shard column with some value: it must not
 		// substitute for the filter, nor weaken it
-		return &sqlgen.SelectOptions{Where: "org_id = ? OR region = ?", Values: []interface{}{orgVals[r.Intn(3)], regionVals[r.Intn(2)]}}, "Where(org_id = ? OR region = ?)"
+		return &sqlgen.SelectOptions{Where: "org_id = ? OR region = ?", Values: []interface{}{s.dom.orgs[r.Intn(len(s.dom.orgs))], s.dom.regions[r.Intn(len(s.dom.regions))]}}, "Where(org_id = ? OR region = ?)"
 	case 4:
 		return &sqlgen.SelectOptions{ForUpdate: true, OrderBy: pk}, "ForUpdate"
 	case 5:
@@ -770,8 +857,8 @@ func (s *scenario) genWhere(table string) (string, []interface{}) {
 		vals func() []interface{}
 	}
 	none := func() []interface{} { return nil }
-	org := atom{"org_id = ?", func() []interface{} { return []interface{}{orgVals[r.Intn(3)]} }}
-	reg := atom{"region = ?", func() []interface{} { return []interface{}{regionVals[r.Intn(2)]} }}
+	org := atom{"org_id = ?", func() []interface{} { return []interface{}{s.dom.orgs[r.Intn(len(s.dom.orgs))]} }}
+	reg := atom{"region = ?", func() []interface{} { return []interface{}{s.dom.regions[r.Intn(len(s.dom.regions))]} }}
 	var atoms []atom
 	switch table {
 	case "devices":
@@ -818,8 +905,8 @@ func (s *scenario) genWhere(table string) (string, []interface{}) {
 // genRow builds a row for a write with the given intent.
 func (s *scenario) genRow(table string, limits []pair, intent string, existing bool) interface{} {
 	r := s.r
-	org := orgVals[r.Intn(3)]
-	reg := regionVals[r.Intn(2)]
+	org := s.dom.orgs[r.Intn(len(s.dom.orgs))]
+	reg := s.dom.regions[r.Intn(len(s.dom.regions))]
 	for _, p := range limits {
 		d := norm(p.val)
 		if p.col == "org_id" && d.kind == 'i' {
@@ -833,13 +920,11 @@ func (s *scenario) genRow(table string, limits []pair, intent string, existing b
 	if len(limits) > 0 && intent != "identical" {
 		bad := limits[r.Intn(len(limits))]
 		if bad.col == "org_id" {
-			org = org%3 + 1
+			org = s.dom.otherOrg(org)
 		} else if intent == "nil" && table == "members" {
 			nilRegion = true
-		} else if reg == "us" {
-			reg = "eu"
 		} else {
-			reg = "us"
+			reg = s.dom.otherRegion(reg)
 		}
 	}
 	var id int64
@@ -1363,7 +1448,7 @@ func confined(st *fakesql.Stmt, def fakesql.TableDef, limits []pair) (string, in
 			return fmt.Sprintf("table %s has no column %s", st.Table, p.col), conjuncts
 		}
 		switch st.Kind {
-		case fakesql.SSelect, fakesql.SCount, fakesql.SDelete:
+		case fakesql.SSelect, fakesql.SCount, fakesql.SDelete, fakesql.SExplain:
 			if m := whereHas(p, kind); m != "" {
 				return m, conjuncts
 			}
@@ -1576,7 +1661,11 @@ func limitShape(h *handleSpec, table string) string {
 	for _, p := range h.enforced(table) {
 		parts = append(parts, fmt.Sprintf("%s:%s:%T", p.src, p.col, p.val))
 	}
-	return "dyn=" + h.dynMode + "[" + strings.Join(parts, ",") + "]"
+	ex := ""
+	if h.explain {
+		ex = "explain,"
+	}
+	return ex + "dyn=" + h.dynMode + "[" + strings.Join(parts, ",") + "]"
 }
 
 func runScenario(run *vlib.Run, i int) {
@@ -1597,7 +1686,7 @@ func runScenario(run *vlib.Run, i int) {
 	}
 	conn := eng.Open()
 	defer conn.Close()
-	s := &scenario{run: run, idx: i, r: r, eng: eng, schema: schema, base: sqlgen.NewDB(conn, schema), obs: &dynObs{}, byID: map[int]*call{}, txTags: map[string]bool{}}
+	s := &scenario{run: run, idx: i, r: r, eng: eng, schema: schema, base: sqlgen.NewDB(conn, schema), obs: &dynObs{}, byID: map[int]*call{}, txTags: map[string]bool{}, dom: genDomain(r)}
 	if err := s.seed(); err != nil {
 		run.Broken(fmt.Sprintf("case %d: seeding: %v", i, err))
 		return
@@ -1617,7 +1706,7 @@ func runScenario(run *vlib.Run, i int) {
 	}
 	nHandles := 1 + r.Intn(2)
 	for k := 0; k < nHandles; k++ {
-		spec := genHandleSpec(r)
+		spec := genHandleSpec(r, s.dom)
 		if k == 1 && r.Intn(3) == 0 {
 			spec = &handleSpec{} // an unlimited handle next to a limited one
 		}
